@@ -60,6 +60,14 @@ def sec_runner_wiring(rep):
                         and r.configs.interpolator is it
                     )
                     detail = f"grid {len(it.xgrid.raw)} nodes log={it.xgrid.log} degree={it.polynomial_degree}"
+                    # the nodes a PDF is sampled at (the echoed grid) are the nodes the operator columns
+                    # belong to (the interpolator's, sorted) -- also when the card lists them out of order
+                    rs = runner.Runner(th, dict(ob, interpolation_xgrid=list(grid[1::2]) + list(grid[0::2])))
+                    its = rs.configs.managers["interpolator"]
+                    echoed = [float(v) for v in np.asarray(rs._output["xgrid"]["grid"]).ravel()]  # pylint: disable=protected-access
+                    ok = ok and np.allclose(its.xgrid.raw, sorted(grid), rtol=0, atol=0) and echoed == [float(v) for v in its.xgrid.raw] and [float(v) for v in np.asarray(r._output["xgrid"]["grid"]).ravel()] == [float(v) for v in it.xgrid.raw]  # pylint: disable=protected-access
+                    if not ok:
+                        detail += f"; unsorted card: interpolator nodes {list(its.xgrid.raw)[:4]}.., echoed {echoed[:4]}.."
                 except Exception as e:  # noqa
                     ok, detail = False, repr(e)
                 rep.add(ob_eval(f"C19/Runner.__init__/interpolator = Dispatcher(card grid #{gi}, degree {deg}, log={is_log}), shared by all consumers", ok, detail=detail, inputs={} if ok else {"grid": str(grid), "degree": deg, "log": is_log, "observed": detail}))
@@ -81,6 +89,19 @@ def sec_sv_tables(rep):
     from . import c05
 
     c05.sec_tables(rep)
+
+
+def sec_tmc_support(rep):
+    """The target-mass integrals run over [xi, 1]: which basis functions are skipped is decided by
+    is_below_x(xi) -- not by x, not by an assumption on the degree -- otherwise the result depends on
+    where the nodes fall between xi and x (C10 contract of _convolve_FX, support width 1 and 2,
+    re-discharged here)."""
+    from . import c10
+
+    for w_ in (1, 2):
+        c10.WIDTH[0] = w_
+        c10.sec_convolve(rep)
+    c10.WIDTH[0] = 1
 
 
 def toy_pdf():
@@ -138,7 +159,7 @@ def run(rep, tier, seed, only=None):
         "spec integral continuous in x: textbook, given continuous basis functions that vanish at the borders of their support (A-eko; bounded stand-in on six grids, every x)",
         "A-quad: scipy.integrate.quad returns the integral it is given (C01)",
     )
-    for nm, f in (("wiring", sec_runner_wiring), ("c01", sec_c01_contracts), ("svtables", sec_sv_tables), ("aeko", H.eko_basis_standin), ("refinement", lambda r: sec_refinement_bounded(r, tier))):
+    for nm, f in (("wiring", sec_runner_wiring), ("c01", sec_c01_contracts), ("svtables", sec_sv_tables), ("tmcsupport", sec_tmc_support), ("aeko", H.eko_basis_standin), ("refinement", lambda r: sec_refinement_bounded(r, tier))):
         if only and only not in nm:
             continue
         rep.add(guarded(f"C19/{nm}", lambda f=f: (f(rep), [])[1]))
